@@ -1,13 +1,22 @@
-import Rare.Model.C15
+import Rare.Model.C15Rename
 /-!
 # C15 — a file renamed ONTO the followed path (atomic replace: write `f.tmp`, `rename(f.tmp, f)`)
 
 One operation unlinks the inode that was at the path and puts a new inode – already holding content – there.
-The directory watch reports `IN_MOVED_TO` for the followed name, i.e. an fsnotify `Create`; there is no
-`Remove` event.  notify.go turns `Create` into the WRITE signal, and `case <-s.eventWrite` re-opens only when
-no file is open – so with re-open (-F) the reader keeps the unlinked file and never follows the new one
-(KNOWN FINDING, `known_findings/C15.json`; the polling reader does follow it: `Stat` sees another size).
-`NStepO` is the notify system with that writer step, as the code is.
+The directory watch reports `IN_MOVED_TO` for the followed name, i.e. an fsnotify `Create`; there is NO
+`Remove` event.  For the path the old file is gone (`removes` counts it, like a rename away).
+
+Since the `fix:` commit f4a9570 of this package the watcher goroutine raises, for a `Create` of the followed
+name, the write signal and – when `ReOpen` is set – the delete signal too (`dispatch1`), and the handler of
+the delete signal (`reopenIfReplaced`) compares the open file with the one at the path: the new file is
+opened and read from its beginning.  Before the fix `Create` raised only the write signal, whose handler
+re-opens only when no file is open, so the reader kept the unlinked file for ever.
+
+Plain follow (-f) is unchanged: nothing tells the reader that its file was unlinked, it keeps the old
+descriptor and the stream does not end (recorded behaviour, like `tail -f`: it follows the descriptor).
+
+`NStepO` is the notify system under the full writer: append, remove, create, other events (`NStep`), rename
+away (`NStepR`) and replace.
 -/
 namespace Rare.Follow
 
@@ -18,9 +27,10 @@ def FS.replace (fs : FS β) (bs : List β) : FS β :=
   { content := fun j => if j = fs.next then bs else fs.content j, next := fs.next + 1, path := some fs.next }
 
 inductive NStepO (cfg : NCfg) : Who → NSt β → NSt β → Prop
-  | base {w : Who} {s s' : NSt β} : NStep cfg w s s' → NStepO cfg w s s'
+  | base {w : Who} {s s' : NSt β} : NStepR cfg w s s' → NStepO cfg w s s'
   | replace (s : NSt β) (i : Nat) (bs : List β) : s.fs.path = some i →
-      NStepO cfg Who.writer s { s with fs := s.fs.replace bs, evq := s.evq ++ [.create] }
+      NStepO cfg Who.writer s
+        { s with fs := s.fs.replace bs, evq := s.evq ++ [.create], removes := s.removes + 1 }
 
 inductive NReachO (cfg : NCfg) (s0 : NSt β) : NSt β → Prop
   | refl : NReachO cfg s0 s0
